@@ -162,11 +162,19 @@ func (g *g) expr(depth int) string {
 }
 
 func (g *g) stmt(depth int) string {
-	n := 14
+	n := 16
 	if depth > 2 {
 		n = 5
 	}
 	switch g.t.Draw(n) {
+	case 14:
+		// a multi-line call whose last argument is a qualified identifier followed by an own-line comment
+		// (go/printer keeps the comment with the arguments if it was written indented, and puts it
+		// at the closer's indentation if it was written at the margin: both are canonical)
+		ind := []string{"\t\t\t\t", "\t\t\t\t", ""}[g.t.Draw(3)]
+		return fmt.Sprintf("%s(\n%s,\n%s,\n%s// %s\n)", g.q(), g.expr(1), g.q(), ind, g.comment())
+	case 15:
+		return fmt.Sprintf("_ = %s{\n%s: %s,\n// %s\n%s: %s, // %s\n// %s\n}", g.q(), g.pick(exported), g.q(), g.comment(), g.pick(exported), g.q(), g.comment(), g.comment())
 	case 0:
 		return fmt.Sprintf("%s(%s)", g.q(), g.expr(1))
 	case 1:
